@@ -495,12 +495,15 @@ pub struct Run {
     pub level: Mutex<String>,
     /// in replay mode: the recorded case to re-execute
     pub replay_case: Option<Value>,
+    /// in replay mode: the signature recorded with the case
+    pub replay_sig: Option<String>,
 }
 
 impl Run {
     pub fn new(cfg: Cfg) -> Arc<Run> {
         let log2 = if cfg.quick() { 28 } else { 31 };
         let distinct = Arc::new(Distinct::new(if cfg.replay.is_some() { 10 } else { log2 }));
+        let mut replay_sig = None;
         let replay_case = cfg.replay.as_ref().map(|p| {
             let txt = std::fs::read_to_string(p).unwrap_or_else(|e| {
                 println!("INCONCLUSIVE property={} reason=replay_file_unreadable:{}", cfg.id, e);
@@ -510,10 +513,12 @@ impl Run {
                 println!("INCONCLUSIVE property={} reason=replay_file_unparsable:{}", cfg.id, e);
                 std::process::exit(2)
             });
+            replay_sig = v.get("signature").and_then(|s| s.as_str()).map(|s| s.to_string());
             v.get("case").cloned().unwrap_or(v)
         });
         let run = Arc::new(Run {
             replay_case,
+            replay_sig,
             cfg,
             start: Instant::now(),
             distinct,
@@ -642,10 +647,21 @@ impl Run {
         inconclusive.dedup();
         if cfg.replay.is_some() {
             // replay mode: re-judge one recorded case; never touches evidence or replay files
+            let mut reproduced = 0;
             for (sig, (v, n)) in total.violations.iter() {
-                println!("REPLAY property={} reproduced signature={} occurrences={}", cfg.id, sig, n);
-                println!("  what: {}", v.what);
-                println!("  detail: {}", v.detail);
+                let this = self.replay_sig.as_ref().map(|s| s == sig).unwrap_or(true);
+                if this {
+                    reproduced += 1;
+                    println!("REPLAY property={} reproduced signature={} occurrences={}", cfg.id, sig, n);
+                    println!("  what: {}", v.what);
+                    println!("  detail: {}", v.detail);
+                } else {
+                    println!("REPLAY property={} (other violation seen while replaying) signature={} occurrences={}", cfg.id, sig, n);
+                }
+            }
+            if reproduced == 0 && !total.violations.is_empty() {
+                println!("REPLAY property={} recorded signature not reproduced on the current tree", cfg.id);
+                return 0;
             }
             for r in inconclusive.iter() {
                 println!("INCONCLUSIVE property={} reason={}", cfg.id, r);
